@@ -100,6 +100,18 @@ func (ex *Exec) intrinsicInvoke(it types.Type, m *types.Func) intrinsicFn {
 			s.heapSet(name, Store(m, SlBase(p), nc))
 			return callOut{v: TupleV{Scalar{n}, Scalar{errv}}}
 		}
+	case "context.Context.Done":
+		return func(ex *Exec, s *State, instr ssa.Instruction, args []Val) callOut {
+			c := s.declare(ex.g.fresh("ctxdone"), SRef)
+			ex.assumeRefOK(s, c)
+			return callOut{v: Scalar{c}}
+		}
+	case "context.Context.Err":
+		return func(ex *Exec, s *State, instr ssa.Instruction, args []Val) callOut {
+			e := s.declare(ex.g.fresh("ctxerr"), SIface)
+			ex.assumeWF(s, e, nil)
+			return callOut{v: Scalar{e}}
+		}
 	case "error.Error":
 		return func(ex *Exec, s *State, instr ssa.Instruction, args []Val) callOut {
 			return callOut{v: Scalar{ex.opaqueStr(s)}}
@@ -208,6 +220,32 @@ func (ex *Exec) intrinsic(f *ssa.Function) intrinsicFn {
 			ex.usedAssume["A-ATOMICPKG: sync/atomic operations are atomic"] = true
 			return callOut{v: ex.load(s, instr, args[0])}
 		}
+	case "time.AfterFunc":
+		return func(ex *Exec, s *State, instr ssa.Instruction, args []Val) callOut {
+			// A-TIMER: the callback runs once, d after the call, unless
+			// stopped; elapsed time is not modelled. Ghost: armed, delay, fn.
+			d := ex.asScalar(args[0])
+			f := ex.asScalar(args[1])
+			r := ex.newRef(s)
+			ar := s.heapCur("|Timer:armed|", SArray(SRef, SBool))
+			s.heapSet("|Timer:armed|", Store(ar, r, TTrue))
+			dl := s.heapCur("|Timer:delay|", SArray(SRef, SBV(64)))
+			s.heapSet("|Timer:delay|", Store(dl, r, d))
+			fa := s.heapCur("|Timer:fn|", SArray(SRef, SRef))
+			s.heapSet("|Timer:fn|", Store(fa, r, f))
+			ex.usedAssume["A-TIMER: time.AfterFunc(d, f) runs f once, d after the call, unless Stop succeeded; elapsed time is not modelled"] = true
+			ex.callbackEnabled(s, instr, args[1])
+			return callOut{v: PtrV{Base: r, Root: f0ResultElem(instr)}}
+		}
+	case "(*time.Timer).Stop":
+		return func(ex *Exec, s *State, instr ssa.Instruction, args []Val) callOut {
+			p := args[0].(PtrV)
+			ex.nilCheck(s, instr, p.Base)
+			ar := s.heapCur("|Timer:armed|", SArray(SRef, SBool))
+			s.heapSet("|Timer:armed|", Store(ar, p.Base, TFalse))
+			b := s.declare(ex.g.fresh("stopped"), SBool)
+			return callOut{v: Scalar{b}}
+		}
 	case "strings.Contains":
 		return func(ex *Exec, s *State, instr ssa.Instruction, args []Val) callOut {
 			// uninterpreted predicate over (string, substring)
@@ -272,4 +310,14 @@ func (ex *Exec) callOpaqueFunc(s *State, instr ssa.Instruction, c *ssa.CallCommo
 	}
 	ex.finishCall(s, instr, res, stay, rv)
 	return nil
+}
+
+// f0ResultElem: pointee type of the (single, pointer) result of a call instruction.
+func f0ResultElem(instr ssa.Instruction) types.Type {
+	if v, ok := instr.(ssa.Value); ok {
+		if p, ok := v.Type().Underlying().(*types.Pointer); ok {
+			return p.Elem()
+		}
+	}
+	return types.Typ[types.Int]
 }
